@@ -392,6 +392,15 @@ pub fn run(ctx: &mut Ctx) -> (&'static str, String, bool) {
                     check_wire(c, lay, tf, &base, w, &mut p);
                 }
             }
+            // the field's corner values again with other values in the packet's remaining fields (flags, sub-types,
+            // sibling times): a rule that couples two fields shows only for some of them
+            for k in 0..12u64 {
+                let mut r2 = r.fork(9000 + k);
+                let base2 = base_assignment(c, lay, tf, &mut r2);
+                for w in [0u64, 1, 2, max / 2, max - 1, max] {
+                    check_wire(c, lay, tf, &base2, w, &mut p);
+                }
+            }
             // encode side: durations up to and beyond the range, with sub-unit remainders
             let unit_ns = tf.unit as u128 * 1_000_000;
             let range_ns = (max as u128 + 1) * unit_ns;
